@@ -1,6 +1,6 @@
 (* C03 - One resource per (type, name) per context; failed adds change nothing. *)
 From Coq Require Import String List.
-From Asphalt Require Import Ctx.ResModel Ctx.ResProofs Ctx.ResInv Ctx.ResHist.
+From Asphalt Require Import Ctx.ResModel Ctx.ResProofs Ctx.ResInv Ctx.ResHist Ctx.AddTie Gen.Gen_addres.
 Import ListNotations.
 
 (* each pair resolves to at most one resource / factory: the tables of every context of
@@ -68,3 +68,23 @@ Theorem C03_failed_add_noop : forall s c a,
   is_add a = true -> is_err (snd (step s (At c a))) = true -> fst (step s (At c a)) = s.
 Proof. exact failed_add_changes_nothing. Qed.
 Print Assumptions C03_failed_add_noop.
+
+(* add_resource / add_resource_factory as read from the source on this run (the model's add operations are
+   interpreters over these stage lists): every check stands before every effect, so a call that fails --
+   with any of the documented errors -- leaves the context exactly as it was *)
+Theorem C03_checks_precede_effects :
+  checks_first is_check add_resource_stages = true /\ checks_first fac_is_check add_factory_stages = true.
+Proof. exact add_checks_precede_effects. Qed.
+Print Assumptions C03_checks_precede_effects.
+
+Theorem C03_failed_run_add_changes_nothing : forall x v types_ name desc cb e,
+  snd (run_add add_resource_stages x v types_ name desc cb) = Err e ->
+  fst (run_add add_resource_stages x v types_ name desc cb) = x.
+Proof. exact failed_run_add_changes_nothing. Qed.
+Print Assumptions C03_failed_run_add_changes_nothing.
+
+Theorem C03_failed_add_factory_changes_nothing : forall x f kind name types desc e,
+  snd (run_addfac add_factory_stages x f kind name types desc) = Err e ->
+  fst (run_addfac add_factory_stages x f kind name types desc) = x.
+Proof. exact failed_add_factory_changes_nothing. Qed.
+Print Assumptions C03_failed_add_factory_changes_nothing.
